@@ -15,7 +15,7 @@ Import ListNotations.
 Require Import Num Vec Tree MB Spatial C15_Model.
 
 Section M. Context {T:Type} (K:NumOps T).
-Definition SVt := SpatialVec T.
+Local Notation SVt := (SpatialVec T).
 Record rbody := mkRb { r_idx : nat; r_par : nat; r_l : Vec3 T; r_Mk : USp (T:=T); r_V : SVt; r_A : SVt;
                        r_Fapp : SVt; r_Fcons : SVt; r_pBM : Vec3 T; r_pPF : Vec3 T }.
 
